@@ -1,3 +1,4 @@
+import Unimock.Generated.Builder
 import Unimock.Lemmas.Builder
 import Unimock.Lemmas.History
 import Unimock.Lemmas.BinSearch
@@ -217,5 +218,61 @@ theorem C02_history_kth_match (s0 : Shared α ρ) (h0 : ∀ id pi, s0.countOf id
   refine ⟨p, hp, ?_⟩
   rw [hout, runCalls_countOf, h0]
   simp
+
+/-! ### the builder's quantifier methods as the source has them (`Generated/Builder.lean`, re-translated from `src/build.rs`
+and `src/counter.rs` on every run) -/
+
+/-- `DynBuilderWrapper::quantify` as re-translated -/
+def srcQuantify {α ρ} (b : Builder α ρ) (times : Nat) (e : Exactness) : Builder α ρ :=
+  { b with min := Generated.addToMinimum b.min (Generated.quantifyDelta times), ex := e, idx := Generated.quantifyIdx b.idx times }
+
+theorem C02_source_quantify {α ρ} (b : Builder α ρ) (n : Nat) (e : Exactness) : b.quantify n e = srcQuantify b n e := by
+  simp [Builder.quantify, srcQuantify, Generated.addToMinimum, Generated.quantifyDelta, Generated.quantifyIdx]
+
+/-- `QuantifiedResponse::then` as re-translated: `add_to_minimum(0, AtLeastPlusOne)`, the response index untouched -/
+theorem C02_source_then {α ρ} (b : Builder α ρ) :
+    b.then_ = { b with min := Generated.addToMinimum b.min Generated.thenAdd.1, ex := Generated.thenAdd.2 } := by
+  simp [Builder.then_, Generated.addToMinimum, Generated.thenAdd]
+
+/-- what a segment's quantifier does to the builder, read from the re-translated method table: which of the two impls
+    (`QuantifyReturnValue` after `returns(v)`, `Quantify` otherwise) and which method; an unquantified response used as a
+    clause goes through `Clause for QuantifyReturnValue` (= `once()`) or `Clause for Quantify` (per match mode) -/
+def applyQuantSrc {α ρ} (b : Builder α ρ) (topLevel : Bool) (s : Segment ρ) : Builder α ρ :=
+  let step (t : Option Nat × Exactness) (arg : Nat) := srcQuantify b (t.1.getD arg) t.2
+  match s.quant with
+  | .once => step (if s.viaQRV then Generated.qrvOnce.2 else Generated.qOnce) 0
+  | .nTimes n => step (if s.viaQRV then Generated.qrvNTimes.2 else Generated.qNTimes) n
+  | .atLeastTimes n => step (if s.viaQRV then Generated.qrvAtLeast.2 else Generated.qAtLeast) n
+  | .unquantified =>
+    if topLevel then
+      if s.viaQRV then (if Generated.qrvClauseViaOnce then step Generated.qrvOnce.2 0 else b)
+      else match (if b.mode = .inOrder then Generated.qClauseOrdered else Generated.qClauseUnordered) with
+        | some (k, e) => srcQuantify b k e
+        | none => b
+    else b
+
+theorem C02_source_apply_quant {α ρ} (b : Builder α ρ) (topLevel : Bool) (s : Segment ρ) :
+    b.applyQuant topLevel s = applyQuantSrc b topLevel s := by
+  unfold Builder.applyQuant applyQuantSrc implicitOnce
+  simp only [← C02_source_quantify]
+  cases s.quant <;> cases hv : s.viaQRV <;> cases topLevel <;> cases hm : b.mode <;>
+    simp [Generated.qrvOnce, Generated.qOnce, Generated.qrvNTimes, Generated.qNTimes, Generated.qrvAtLeast,
+      Generated.qAtLeast, Generated.qrvClauseViaOnce, Generated.qClauseOrdered, Generated.qClauseUnordered]
+
+/-- whether the stored value is single-use, read from the same table: the conversion each `QuantifyReturnValue` method
+    applies; an unquantified value is stored by `once()` when used as a clause and by `Drop` inside `stub` -/
+def storedOnceSrc (q : Quant) (topLevel : Bool) : Bool :=
+  match q with
+  | .once => Generated.qrvOnce.1
+  | .nTimes _ => Generated.qrvNTimes.1
+  | .atLeastTimes _ => Generated.qrvAtLeast.1
+  | .unquantified => if topLevel && Generated.qrvClauseViaOnce then Generated.qrvOnce.1 else Generated.qrvDropSingleUse
+
+theorem C02_source_stored {ρ} (s : Segment ρ) (topLevel : Bool) (v : ρ) (o : Bool) (h : s.resp = .ret v o)
+    (hq : s.viaQRV = true) : s.stored = .ret v (storedOnceSrc s.quant topLevel) := by
+  unfold Segment.stored storedOnceSrc
+  simp only [h, hq]
+  cases s.quant <;> cases topLevel <;>
+    simp [Generated.qrvOnce, Generated.qrvNTimes, Generated.qrvAtLeast, Generated.qrvClauseViaOnce, Generated.qrvDropSingleUse]
 
 end Unimock
